@@ -236,6 +236,12 @@ func (w *World) shortCountChecked(c *ssa.Call) (bool, string) {
 			}
 			ok2, fact := w.pathsSurface(b, short, nil, errOpts{})
 			if ok2 {
+				// … and the comparison is not bypassed when the writer reported no error: from
+				// the Write, following the nil side of every test of its error, no return is
+				// reached without passing this comparison
+				if by := w.countTestBypassed(c, iff); by != "" {
+					return false, "count compared at " + w.instrPos(iff) + " but " + by
+				}
 				return true, "count compared with " + wantLen + " at " + w.instrPos(iff) + "; " + fact
 			}
 			return false, "count compared at " + w.instrPos(iff) + " but " + fact
@@ -574,4 +580,57 @@ func (w *World) guardedByCanInterface(field *ssa.Call, use *ssa.Call) (bool, str
 		}
 	}
 	return false, "Interface() on a struct field without a dominating CanInterface() test: panics for an unexported field"
+}
+
+// countTestBypassed: a return is reachable from the Write call c along the
+// nil side of every test of c's error without passing the If that compares
+// the count ("" if not).
+func (w *World) countTestBypassed(c *ssa.Call, cnt *ssa.If) string {
+	var errV ssa.Value
+	idx := errIndex(c.Call.Signature())
+	for _, ref := range *c.Referrers() {
+		if ex, ok := ref.(*ssa.Extract); ok && ex.Index == idx {
+			errV = ex
+		}
+	}
+	seen := map[*ssa.BasicBlock]bool{}
+	var bad string
+	var walk func(b *ssa.BasicBlock)
+	walk = func(b *ssa.BasicBlock) {
+		if seen[b] || bad != "" {
+			return
+		}
+		seen[b] = true
+		switch t := b.Instrs[len(b.Instrs)-1].(type) {
+		case *ssa.Return:
+			bad = "the return at " + w.instrPos(t) + " is reachable with a nil writer error without the count having been compared: a short write with a nil error is reported as success"
+		case *ssa.If:
+			if t == cnt {
+				return // the comparison is passed: its two sides are judged separately
+			}
+			if bo, ok := t.Cond.(*ssa.BinOp); ok && errV != nil && (bo.Op == token.EQL || bo.Op == token.NEQ) {
+				other := bo.Y
+				if other == errV {
+					other = bo.X
+				}
+				if (bo.X == errV || bo.Y == errV) && isNilConst(other) {
+					if bo.Op == token.EQL {
+						walk(b.Succs[0])
+					} else {
+						walk(b.Succs[1])
+					}
+					return
+				}
+			}
+			for _, s2 := range b.Succs {
+				walk(s2)
+			}
+		default:
+			for _, s2 := range b.Succs {
+				walk(s2)
+			}
+		}
+	}
+	walk(c.Block())
+	return bad
 }
